@@ -180,6 +180,8 @@ while i < n:
                         c.close()
                     elif transport == 'popen':
                         c = popen_spawn.PopenSpawn([sys.executable, '-c', gen, str(n), str(k)], maxread=maxread, timeout=60)
+                        if up:
+                            c.wait()              # the application waits for the child first and reads what it wrote afterwards
                         c.expect(pexpect.EOF)
                         got = c.before
                         c.wait()
@@ -213,6 +215,74 @@ while i < n:
                             % (transport, n, k, maxread, len(got), i), {'transport': transport, 'n': n, 'piece': k, 'maxread': maxread, 'use_poll': up})
                     return tried
     return tried
+
+
+def popen_late_writer(ctx, pexpect):
+    """PopenSpawn: the command exits at once, a background job of it still holds the pipe and writes later; the application calls
+    wait() (which returns as soon as the command itself has exited) and reads afterwards: the stream ends when the LAST writer is
+    gone, and everything written until then is returned"""
+    from pexpect import popen_spawn
+    for first in ('wait', 'read'):
+        p = popen_spawn.PopenSpawn(['/bin/sh', '-c', '(sleep 0.4; echo late1; sleep 0.4; echo late2) & echo early'], timeout=10)
+        try:
+            if first == 'wait':
+                p.wait()
+            p.expect(pexpect.EOF)
+            got = p.before
+            p.wait()
+        except Exception as e:
+            ctx.hit('C06/popen-late-writer', 'PopenSpawn, %s first: %r' % (first, e), {'first': first})
+            return
+        if got != b'early\nlate1\nlate2\n':
+            ctx.hit('C06/popen-late-writer', 'PopenSpawn on a command whose background job writes after the command has exited (%s() first): the reads returned %r before EOF'
+                    % (first, got), {'first': first})
+            return
+    ctx.oracle_stats['popen_late_writer'] = 2
+
+
+def socket_timeout_after_send(ctx, pexpect):
+    """the last clause for the OTHER direction: a large send to a peer that reads late (the kernel buffer fills, the send has to
+    wait and resume) leaves the socket's own timeout - none, a value, non-blocking - as it found it; and everything arrives"""
+    import threading
+    from pexpect import socket_pexpect
+    size = 3000000
+    payload = (b'0123456789abcdef' * (size // 16 + 1))[:size]
+    tried = 0
+    for own in (0.0, 7.5, None):
+        a, b = socket.socketpair()
+        a.settimeout(own)
+        c = socket_pexpect.SocketSpawn(a, timeout=20)
+        got = []
+
+        def reader():
+            time.sleep(0.3)
+            n = 0
+            while n < size:
+                d = b.recv(1 << 16)
+                if not d:
+                    break
+                n += len(d)
+            got.append(n)
+        th = threading.Thread(target=reader)
+        th.start()
+        err = None
+        try:
+            c.send(payload)
+        except Exception as e:
+            err = e
+        after = a.gettimeout()
+        th.join(15)
+        tried += 1
+        for s_ in (a, b):
+            try:
+                s_.close()
+            except OSError:
+                pass
+        if err is not None or after != own or got != [size]:
+            ctx.hit('C06/socket-timeout', "SocketSpawn.send() of %d bytes to a peer that reads late, the socket's own timeout being %r: %s; the timeout is %r afterwards; the peer received %r"
+                    % (size, own, 'raised %r' % (err,) if err else 'returned', after, got), {'own_timeout': own})
+            return
+    ctx.oracle_stats['socket_timeout_after_send'] = tried
 
 
 def _write_all(fd, data, k):
@@ -390,6 +460,8 @@ def run(ctx):
     placed_race(ctx, pexpect, False)
     placed_race(ctx, pexpect, True)
     real_popen_split_char(ctx, pexpect)
+    socket_timeout_after_send(ctx, pexpect)
+    popen_late_writer(ctx, pexpect)
 
 
 def replay(ctx, path):
